@@ -122,15 +122,17 @@ const FLOATS: [u64; 14] = [
 fn int(r: &mut Rng) -> u64 {
     match r.below(4) { 0 | 1 => *r.pick(&EDGE), 2 => r.u64_edge(), _ => r.below(30) }
 }
+static LONG_OK: std::sync::atomic::AtomicBool = std::sync::atomic::AtomicBool::new(false);
 fn text(r: &mut Rng) -> String {
     let pieces = ["a", "b", "key", "Z", "0", " ", "\u{e9}", "\u{20ac}", "\u{1f600}", "\u{7ff}", "\u{800}", "\u{ffff}", "\u{10000}", "\u{10ffff}", "\u{d7ff}", "\u{e000}", "\u{0}"];
-    match r.below(40) {
+    let sel = r.below(40);
+    match if sel == 0 && !LONG_OK.load(SeqCst) { 5 } else { sel } {
         0 => {
             // long text with a multi-byte code point around a 4096-byte chunk boundary
             let base = if r.chance(1, 2) { 4096 } else { 8192 };
             let n = base - 5 + r.below(7) as usize;
             let mut s = "x".repeat(n);
-            s.push_str(r.pick(&["\u{e9}", "\u{20ac}", "\u{1f600}"]));
+            s.push_str(*r.pick(&["\u{e9}", "\u{20ac}", "\u{1f600}"]));
             s.push_str("yz");
             s
         }
@@ -139,7 +141,8 @@ fn text(r: &mut Rng) -> String {
     }
 }
 fn bytes(r: &mut Rng) -> Vec<u8> {
-    let n = match r.below(30) { 0 => 4096 + r.below(3) as usize, 1 => *r.pick(&[23usize, 24, 255, 256]), _ => r.below(10) as usize };
+    let sel = r.below(30);
+    let n = match if sel == 0 && !LONG_OK.load(SeqCst) { 5 } else { sel } { 0 => 4096 + r.below(3) as usize, 1 => *r.pick(&[23usize, 24, 255, 256]), _ => r.below(10) as usize };
     r.bytes(n)
 }
 fn leaf(r: &mut Rng) -> Value {
@@ -250,11 +253,15 @@ fn raw_encode(r: &mut Rng, st: Style, v: &Value, out: &mut Vec<u8>) {
 
 // ------------------------------------------------------------------ mode: values
 fn values(seed: u64, n: u64, maxdepth: u64) {
+    LONG_OK.store(true, SeqCst);
     let mut r = Rng::new(seed);
     println!("{}", json!({"k":"meta","value_size": std::mem::size_of::<Value>(), "pair_size": std::mem::size_of::<(Value, Value)>()}));
     for i in 0..n {
         let sorted = i % 4 != 0;
-        let v = if i % 10 == 9 { gen_deep(&mut r, 1 + r.below(maxdepth)) } else { let d = 1 + r.below(maxdepth.min(8)); gen_value(&mut r, d, sorted) };
+        let v = loop {
+            let v = if i % 10 == 9 { let d = 1 + r.below(maxdepth); gen_deep(&mut r, d) } else { let d = 1 + r.below(maxdepth.min(8)); gen_value(&mut r, d, sorted) };
+            if enc(&v).map(|b| b.len()).unwrap_or(0) <= 12000 { break v }
+        };
         let e = enc(&v);
         let mut o = json!({"k":"val","v":vj(&v)});
         match e {
@@ -295,16 +302,21 @@ fn mutate(r: &mut Rng, b: &mut Vec<u8>) -> &'static str {
     }
 }
 fn bytes_mode(seed: u64, n: u64, maxdepth: u64) {
+    LONG_OK.store(true, SeqCst);
     let mut r = Rng::new(seed ^ 0xb17e5);
     for i in 0..n {
         let st = match i % 4 { 0 => Style { wide: 0, indef: 0, seg: 0 }, 1 => Style { wide: 8, indef: 0, seg: 0 }, 2 => Style { wide: 2, indef: 8, seg: 6 }, _ => Style { wide: 4, indef: 4, seg: 3 } };
         let d = 1 + r.below(maxdepth.min(6));
-        let v = if i % 13 == 12 { gen_deep(&mut r, 1 + r.below(maxdepth)) } else { gen_value(&mut r, d, r.chance(1, 2)) };
         let mut b = Vec::new();
-        raw_encode(&mut r, st, &v, &mut b);
+        loop {
+            let v = if i % 13 == 12 { let dd = 1 + r.below(maxdepth); gen_deep(&mut r, dd) } else { let so = r.chance(1, 2); gen_value(&mut r, d, so) };
+            b.clear();
+            raw_encode(&mut r, st, &v, &mut b);
+            if b.len() <= 12000 { break }
+        }
         let mut muts = vec![];
         if i % 3 != 0 { let k = 1 + r.below(2); for _ in 0..k { muts.push(mutate(&mut r, &mut b)) } }
-        if i % 50 == 49 { b = r.bytes(r.below(12) as usize); muts.push("random") }
+        if i % 50 == 49 { let k = r.below(12) as usize; b = r.bytes(k); muts.push("random") }
         // whole-input decode (cbor_decode) with allocation measurement
         let (top, peak, maxreq) = measured(|| dec_opts::<Value>(&b, true));
         // prefix decode: one data item, then the offset
@@ -374,7 +386,7 @@ impl T17 for CborHolderAccount {
 fn memo(r: &mut Rng) -> Memo { let n = *r.pick(&[0usize, 1, 4, 23, 24, 255, 256]); Memo::try_from(r.bytes(n)).unwrap() }
 impl T17 for CborMemo {
     fn gen(r: &mut Rng) -> Self { if r.chance(1, 2) { CborMemo::Raw(memo(r)) } else { CborMemo::Cbor(memo(r)) } }
-    fn sv(&self) -> J { match self { CborMemo::Raw(m) => xv(0, xby(m.as_ref())), CborMemo::Cbor(m) => xv(1, xby(m.as_ref())) } }
+    fn sv(&self) -> J { match self { CborMemo::Raw(m) => xv(1, xby(m.as_ref())), CborMemo::Cbor(m) => xv(0, xby(m.as_ref())) } }
 }
 impl T17 for TokenTransfer {
     fn gen(r: &mut Rng) -> Self { TokenTransfer { amount: T17::gen(r), recipient: T17::gen(r), memo: opt(r, CborMemo::gen) } }
@@ -483,7 +495,7 @@ fn all_maps<'a>(v: &'a mut Value, out: &mut Vec<*mut Value>) {
     match v {
         Value::Map(_) => { out.push(v as *mut Value); if let Value::Map(l) = v { for (_, x) in l.iter_mut() { all_maps(x, out) } } }
         Value::Array(l) => for x in l.iter_mut() { all_maps(x, out) },
-        Value::Tag(_, x) => { out.push(v as *mut Value); if let Value::Tag(_, x2) = v { all_maps(x2, out) } let _ = x; }
+        Value::Tag(..) => { out.push(v as *mut Value); if let Value::Tag(_, x2) = v { all_maps(x2, out) } }
         _ => {}
     }
 }
@@ -511,7 +523,7 @@ fn perturb(r: &mut Rng, v: &mut Value) -> &'static str {
             1 => { let inner = (**x).clone(); *node = inner; "untag" }
             2 => { if let Value::Array(l) = &mut **x { if r.chance(1, 2) { l.push(Value::Positive(0)) } else if !l.is_empty() { l.pop(); } } "array-len" }
             _ => { if let Value::Array(l) = &mut **x { if !l.is_empty() { let i = r.below(l.len() as u64) as usize; l[i] = match r.below(5) { 0 => Value::Positive(int(r)), 1 => Value::Negative(int(r)),
-                        2 => Value::Tag(2, Box::new(Value::Bytes(Bytes(r.bytes(r.below(11) as usize))))), 3 => Value::Tag(3, Box::new(Value::Bytes(Bytes(r.bytes(r.below(10) as usize))))), _ => leaf(r) }; } } "array-elem" }
+                        2 => { let k = r.below(11) as usize; Value::Tag(2, Box::new(Value::Bytes(Bytes(r.bytes(k))))) } 3 => { let k = r.below(10) as usize; Value::Tag(3, Box::new(Value::Bytes(Bytes(r.bytes(k))))) } _ => leaf(r) }; } } "array-elem" }
         },
         _ => "none",
     }
@@ -544,7 +556,7 @@ fn typed_one<T: T17>(name: &str, r: &mut Rng, n: u64) {
             let ri = dec_opts::<T>(&b, false);
             let j = |res: &Result<T, String>| match res { Ok(y) => json!({"x": y.sv()}), Err(s) => json!(s) };
             // whatever is accepted must re-encode deterministically and decode to itself
-            let fix = match &ri { Ok(y) => match enc(y) { Ok(e2) => json!(matches!(dec_opts::<T>(&e2, false), Ok(z) if z == *y)), Err(_) => json!(false) }, Err(_) => json!(null) };
+            let fix = match &ri { Ok(y) => match enc(y) { Ok(e2) => json!(matches!(dec_opts::<T>(&e2, false).map(|z| enc(&z)), Ok(Ok(e3)) if e3 == e2)), Err(_) => json!(false) }, Err(_) => json!(null) };
             println!("{}", json!({"k":"tdec","ty":name,"hex":hex(&b),"what":what,"fail":j(&rf),"ignore":j(&ri),"peak":peak,"len":b.len(),"fix":fix}));
         }
     }
@@ -618,12 +630,13 @@ fn dispatch(seed: u64, n: u64) {
 
 // ------------------------------------------------------------------ token amounts: string and JSON forms
 fn amount_str(r: &mut Rng) -> String {
-    fn digits(r: &mut Rng, n: u64) -> String { (0..n).map(|_| char::from(b'0' + r.below(10) as u8)).collect() }
+    fn digits(r: &mut Rng, lo: u64, span: u64) -> String { let n = lo + r.below(span.max(1)); (0..n).map(|_| char::from(b'0' + r.below(10) as u8)).collect() }
     match r.below(12) {
-        0 => String::new(), 1 => ".".into(), 2 => "1.2.3".into(), 3 => format!("-{}", digits(r, 1 + r.below(3))), 4 => format!("{}x", digits(r, 2)),
-        5 => format!("{}.", digits(r, 1 + r.below(4))), 6 => format!(".{}", digits(r, 1 + r.below(4))), 7 => "18446744073709551616".into(), 8 => "18446744073709551615".into(),
-        9 => format!("{}.{}", digits(r, 1 + r.below(22)), digits(r, r.below(30))), 10 => format!("{}.{}000", digits(r, 1 + r.below(6)), digits(r, r.below(5))),
-        _ => format!("{}.{}", digits(r, 1 + r.below(8)), digits(r, 1 + r.below(8))),
+        0 => String::new(), 1 => ".".into(), 2 => "1.2.3".into(), 3 => format!("-{}", digits(r, 1, 3)), 4 => format!("{}x", digits(r, 2, 1)),
+        5 => format!("{}.", digits(r, 1, 4)), 6 => format!(".{}", digits(r, 1, 4)), 7 => "18446744073709551616".into(), 8 => "18446744073709551615".into(),
+        9 => { let a = digits(r, 1, 22); let b = digits(r, 0, 30); format!("{}.{}", a, b) }
+        10 => { let a = digits(r, 1, 6); let b = digits(r, 0, 5); format!("{}.{}000", a, b) }
+        _ => { let a = digits(r, 1, 8); let b = digits(r, 1, 8); format!("{}.{}", a, b) }
     }
 }
 fn amounts(seed: u64, n: u64) {
